@@ -53,7 +53,7 @@ impl DomainParticipantPermissions {
   }
 }
 
-#[cfg(rustdds_verif)]
+#[cfg(all(rustdds_verif, any(not(rustdds_verif_only), rustdds_verif_c18)))]
 impl DomainParticipantPermissions {
   pub(crate) fn verif_new(grants: Vec<Grant>) -> Self {
     Self {
@@ -66,7 +66,7 @@ impl DomainParticipantPermissions {
   }
 }
 
-#[cfg(rustdds_verif)]
+#[cfg(all(rustdds_verif, any(not(rustdds_verif_only), rustdds_verif_c18)))]
 impl Criterion {
   pub(crate) fn verif_new(
     topics: Vec<Pattern>,
